@@ -6,7 +6,7 @@ from props import _writer as W
 PID = "C28"
 PROPS_FILE = "Props/C28.v"
 PREFIX = "C28"
-KNOWN = {1: "C28-unregister-keeps-record", 2: "C28-refused-write-registers-instance"}
+KNOWN = {}
 RULE = ("a case is one simulator scenario: a data writer on a keyed or keyless topic, created enabled or "
         "not (publisher / participant entity_factory.autoenable_created_entities=false) with random history / "
         "resource-limit / lifespan QoS, then 10-60 calls of register_instance, unregister_instance, dispose, "
@@ -55,6 +55,19 @@ def gen_scenario(r, big=False):
     # the probe reader lives in the writer's participant: it must be created enabled
     probe = mode != "part" and r.random() < 0.4
     q = gen_qos(r, probe)
+    if r.random() < 0.04:
+        # an inconsistent QoS: create_datawriter must refuse it (InconsistentPolicy), nothing else happens
+        x = r.random()
+        if x < 0.4:
+            q["hist"] = -1                      # KEEP_LAST(0)
+        elif x < 0.7 and q["mspi"] >= 1:
+            q["ms"] = q["mspi"] - 1             # max_samples < max_samples_per_instance
+        else:
+            q["mspi"] = max(q["mspi"], 1)
+            q["ms"] = max(q["ms"], q["mspi"]) if q["ms"] >= 0 else -1
+            q["hist"] = q["mspi"] + 1           # depth > max_samples_per_instance
+        return " ; ".join(["P 0", "T 0 t" + ("" if keyed else " nokey"), "PUB 0", "W 0 0 " + W.w_opts(q),
+                           "reg 0 1", "w 0 1 10", "lk 0 1"])
     ops = ["P 0" + (" auto=0" if mode == "part" else ""),
            "T 0 t" + ("" if keyed else " nokey"),
            "PUB 0" + (" auto=0" if mode == "pub" else ""),
@@ -107,12 +120,19 @@ def corpus():
         "P 0 ; T 0 t nokey ; PUB 0 ; W 0 0 rel=1 ; lk 0 1 ; reg 0 1 ; u 0 1 ; d 0 1 ; w 0 3 10 ; lk 0 3 ; lk 0 9 ; u 0 1 ; d 0 1",
         "P 0 ; T 0 t ; PUB 0 auto=0 ; W 0 0 rel=1 ; lk 0 1 ; reg 0 1 ; u 0 1 ; d 0 1 ; w 0 3 10 ; en 0 ; lk 0 1 ; reg 0 1 ; w 0 3 10 ; en 0 ; lk 0 3",
         "P 0 auto=0 ; T 0 t ; PUB 0 ; W 0 0 rel=1 ; lk 0 1 ; reg 0 1 ; en 0 ; reg 0 1",
-        # finding C28-unregister-keeps-record (D31): lookup / unregister / dispose after unregister_instance
+        # regression, fixed finding C28-unregister-keeps-record (D31, b9f60de): lookup / unregister / dispose after unregister_instance
         hdr + "W 0 0 rel=1 ; reg 0 1 ; u 0 1 ; lk 0 1",
         hdr + "W 0 0 rel=1 ; w 0 1 10 ; u 0 1 ; u 0 1",
         hdr + "W 0 0 rel=1 ; reg 0 1 ; u 0 1 ; d 0 1",
-        # finding C28-refused-write-registers-instance: a write refused with OutOfResources registers the instance
+        # regression, fixed finding C28-refused-write-registers-instance (3010f06): a refused write must not register the instance
         hdr + "W 0 0 rel=1 ms=1 mspi=1 mi=2 ; w 0 1 10 ; lk 0 2 ; w 0 2 10 ; lk 0 2 ; reg 0 3 ; d 0 2",
+        # regression: KEEP_LAST(0) and other inconsistent QoS are refused at creation
+        hdr + "W 0 0 rel=1 hist=-1 ; w 0 1 10 ; lk 0 1",
+        hdr + "W 0 0 rel=1 hist=3 mspi=2 ms=5 ; w 0 1 10",
+        hdr + "W 0 0 rel=1 mspi=3 ms=2 ; w 0 1 10",
+        # a write parked, its instance unregistered meanwhile, then completed: the instance is registered again
+        "P 0 ; T 0 t ; PUB 0 ; SUB 0 ; W 0 0 rel=1 hist=1 mbt=200000000 ; R 0 0 rel=1 ; net ; fault hold ACKNACK -1 -1 -1 ; "
+        "w 0 1 10 ; net ; w 0 1 10 ; u 0 1 ; lk 0 1 ; rel ; clr ; net ; lk 0 1 ; u 0 1",
         # each resource limit at its boundary, with the history probe
         hdr + "W 0 0 rel=1 dur=1 mi=2 ms=3 mspi=2 ; w 0 1 10 ; w 0 1 10 ; w 0 1 10 ; w 0 2 10 ; w 0 2 10 ; w 0 3 10 ; reg 0 3 ; lk 0 3 ; "
               "mark ; SUB 0 ; R 0 0 rel=1 dur=1 ; net ; adv 10000000 ; net ; hist 0",
@@ -151,15 +171,18 @@ def distribution(cases, outs):
 
 MANIFEST = {
     "text": ("Machine-checked proof (Coq) over a model of DataWriterEntity and the writer service methods: for every "
-             "sequence of register/unregister/dispose/lookup/write/enable calls, acknowledgements and timer ticks, on keyed "
-             "and keyless types, every reply honours the documented contract except in two recorded classes (an instance "
-             "that was unregistered keeps its record; a write refused with OutOfResources still registers its instance), for "
-             "which witnesses are proved. A write that would exceed max_samples / max_instances / max_samples_per_instance "
-             "is refused with OutOfResources and adds no sample. The model is tied to the code by running the real "
-             "DataWriterAsync API in the deterministic whole-stack simulator and comparing every reply (and the history a "
-             "late-joining reader receives) with the model inside Coq; the contract oracle is applied to the implementation's replies."),
+             "sequence of register/unregister/dispose/lookup/write/enable calls, acknowledgements, match changes and timer "
+             "ticks, on keyed and keyless types, every reply honours the documented contract: register_instance is idempotent "
+             "and returns the key's handle; lookup_instance returns the handle exactly for the instances registered by a "
+             "successful register/write (also a parked write that completes later) and not unregistered since; dispose / "
+             "unregister of an unknown (or unregistered) instance is BadParameter; instance operations on a keyless type are "
+             "IllegalOperation; everything on a not-yet-enabled writer is NotEnabled. A write that would exceed max_samples / "
+             "max_instances / max_samples_per_instance is refused with OutOfResources and leaves the state unchanged. The model "
+             "is tied to the code by running the real DataWriterAsync API in the deterministic whole-stack simulator and "
+             "comparing every reply (and the history a late-joining reader receives, and whether create_datawriter accepts the "
+             "QoS) with the model inside Coq; the contract oracle is applied to the implementation's replies."),
     "note": ("Trusted: Coq kernel + vm_compute; hand model WriterModel.v (checked by the correspondence run on every check); "
-             "simulator harness and the scenario translator. Axioms: none. Known findings: C28-unregister-keeps-record, "
-             "C28-refused-write-registers-instance."),
+             "simulator harness and the scenario translator. Axioms: none. Findings C28-unregister-keeps-record (b9f60de) and "
+             "C28-refused-write-registers-instance (3010f06) are fixed in /repo; their inputs are regression cases of the corpus."),
     "technique": "Coq proof (invariant over all event sequences) + simulator-driven differential correspondence with oracle evaluated in Coq",
 }
